@@ -6,6 +6,14 @@ import re
 from ..common.utils import charStrAt, isStrSpace
 from .state_block import StateBlock
 
+# Limit the amount of empty autocompleted cells in a table,
+# see https://github.com/markdown-it/markdown-it/issues/1000,
+#
+# Both pulldown-cmark and commonmark-hs limit the number of cells this way to ~200k.
+# We set it to 65k, which can expand user input by a factor of x370
+# (256x256 square is 1.8kB expanded into 650kB).
+MAX_AUTOCOMPLETED_CELLS = 0x10000
+
 headerLineRe = re.compile(r"^:?-+:?$")
 enclosingPipesRe = re.compile(r"^\||\|$")
 
@@ -172,6 +180,7 @@ def table(state: StateBlock, startLine: int, endLine: int, silent: bool) -> bool
     token = state.push("tr_close", "tr", -1)
     token = state.push("thead_close", "thead", -1)
 
+    autocompletedCells = 0
     nextLine = startLine + 2
     while nextLine < endLine:
         if state.sCount[nextLine] < state.blkIndent:
@@ -195,6 +204,12 @@ def table(state: StateBlock, startLine: int, endLine: int, silent: bool) -> bool
             columns.pop(0)
         if columns and columns[-1] == "":
             columns.pop()
+
+        # note: autocomplete count can be negative if user specifies more columns than header,
+        # but that does not affect intended use (which is limiting expansion)
+        autocompletedCells += columnCount - len(columns)
+        if autocompletedCells > MAX_AUTOCOMPLETED_CELLS:
+            break
 
         if nextLine == startLine + 2:
             token = state.push("tbody_open", "tbody", 1)
